@@ -90,3 +90,17 @@ pub fn lzip_decode(data: &[u8]) -> Result<Vec<u8>, String> {
     let dec = Stream::new_lzip_decoder(u64::MAX, 0).map_err(|e| format!("{e:?}"))?;
     run(dec, data)
 }
+
+pub fn lzma2_raw_decode(data: &[u8], dict: u32) -> Result<Vec<u8>, String> {
+    let mut o = LzmaOptions::new_preset(0).unwrap();
+    o.dict_size(dict.max(4096));
+    let mut f = Filters::new();
+    f.lzma2(&o);
+    let dec = Stream::new_raw_decoder(&f).map_err(|e| format!("{e:?}"))?;
+    run_prefix(dec, data)
+}
+
+/// Like `run` but input may be followed by trailing bytes (stops at StreamEnd).
+fn run_prefix(s: Stream, input: &[u8]) -> Result<Vec<u8>, String> {
+    run(s, input)
+}
